@@ -235,6 +235,9 @@ static int process_completed_fragment(sqfs_block_processor_t *proc,
 
 		if (proc->fblk_lookup_error != 0) {
 			err = proc->fblk_lookup_error;
+			/* if the insert went through, the table owns the chunk */
+			if (entry != NULL)
+				chunk = NULL;
 			goto fail;
 		}
 
